@@ -65,13 +65,26 @@ def run(t):
         run.violation({"engine": "zip", "kind": "python-disagrees"}, "Python zipfile disagrees with Go archive/zip / relic: " + f, None)
     if checked < 100:
         raise NoVerdict("too few archives checked")
+    # the member count at which the classic end record's 16-bit field is exhausted: 65534, 65535, 65536 members
+    d = scratch("c17c")
+    try:
+        o = parse_vh_json(run_vh(vh, ["zip-count"], env={"VERIF_TMP": d}, timeout=900), "zip-count")
+    finally:
+        shutil.rmtree(d, ignore_errors=True)
+    run.cov["evaluations"] += o["evaluations"]
+    for f in o["failures"]:
+        run.violation(f["key"], f["desc"], f["replay"])
+    if o["counters"].get("count_archives_ok", 0) != 3 and not o["failures"]:
+        raise NoVerdict(f"zip-count: {o['counters']}")
+    run.cov["member_count_boundary"] = [65534, 65535, 65536]
     run.cov["rule"] = (f"behaviours = initial archive (0..2 members over shapes: store/deflate x empty/non-empty x descriptor none/16+sig/24+sig/"
                        f"12 without sig x ZIP64 extra x extra field x directory entry x entry comment; end records with/without ZIP64 "
                        f"records and archive comment) x 2 operations (add empty/data/dir member with relic's writer, delete first, re-emit), "
                        f"sampled by hash % {mod} = {sel} ({len(g.beh)}); archives relic documents as unsupported (descriptor without "
-                       "signature, archive comment) may be refused but not misread. non-trivial = at least one archive fully cross-checked")
+                       "signature, archive comment) may be refused but not misread; plus archives of 65534, 65535 and 65536 members (the 16-bit member "
+                       "count boundary) read and re-serialised. non-trivial = at least one archive fully cross-checked")
     run.cov["exhaustive"] = False
-    run.assumptions += ["member sizes are small; the 64 KiB / 4 GiB thresholds are exercised only through forced ZIP64 fields, not through real large members",
+    run.assumptions += ["member sizes are small; the 4 GiB thresholds are exercised only through forced ZIP64 fields, not through real large members (the 65535-member threshold is real)",
                         "archives with no members (22 bytes) are below relic's documented 42-byte minimum and are skipped"]
     return run.finish()
 
